@@ -1,7 +1,8 @@
 (* corr/CorrC28.v — correspondence (agree) and specification (holds) checkers for C28 cases.
    A case: the query time / lookback / default subquery step, the stored series, the query, the
    select hints [Start, End] the real engine passed to the storage (which served exactly the
-   samples inside them), and the observed result of the real instant query. *)
+   samples inside them), and the observed results of the real instant query run twice: on a
+   storage serving exactly the hinted range, and on one ignoring the hints (serving everything). *)
 From Coq Require Import List ZArith Bool.
 From Verif Require Import lib.Int64 model.PromqlSelect.
 Import ListNotations.
@@ -9,7 +10,9 @@ Open Scope Z_scope.
 
 Record case := mkCase {
   c_id : Z; c_cfg : cfg; c_series : list sample; c_query : query;
-  c_hints : Z * Z; c_obs : result }.
+  c_hints : Z * Z;
+  c_obs : result;          (* storage returned exactly the samples inside the hints *)
+  c_obs_all : result }.    (* storage ignored the hints and returned every sample *)
 
 Definition point_eqb (a b : point) : bool :=
   (p_t a =? p_t b) && kind_eqb (p_k a) (p_k b) && (p_v a =? p_v b).
@@ -34,13 +37,15 @@ Definition result_eqb (a b : result) : bool :=
 Definition agree (c : case) : bool :=
   let h := hints (c_cfg c) (c_query c) in
   (fst h =? fst (c_hints c)) && (snd h =? snd (c_hints c)) &&
-  result_eqb (engine_eval (c_cfg c) (c_query c) (restrict (c_hints c) (c_series c))) (c_obs c).
+  result_eqb (engine_eval (c_cfg c) (c_query c) (restrict (c_hints c) (c_series c))) (c_obs c) &&
+  result_eqb (engine_eval (c_cfg c) (c_query c) (c_series c)) (c_obs_all c).
 
 (* the property on the implementation's own output: it equals the documented selection computed
    directly (filter / latest-in-window / multiples of the step) on the FULL stored series *)
 Definition holds (c : case) : bool :=
   if sortedb (c_series c) && wf_query (c_cfg c) (c_query c) then
-    result_eqb (spec_eval (c_cfg c) (c_query c) (c_series c)) (c_obs c)
+    result_eqb (spec_eval (c_cfg c) (c_query c) (c_series c)) (c_obs c) &&
+    result_eqb (spec_eval (c_cfg c) (c_query c) (c_series c)) (c_obs_all c)
   else true.
 
 Definition mismatches (cs : list case) : list Z := map c_id (filter (fun c => negb (agree c)) cs).
